@@ -6,6 +6,7 @@ from __future__ import annotations
 from vt.ref import hap
 
 FAULTS = ["honest", "flip-enc", "flip-pk", "drop-enc", "swap-state", "other-identity"]
+IP_ONLY_FAULTS = ["auth-error-470", "m4-auth-error-470", "m4-auth-error-470-no-state", "m4-auth-error", "auth-error"]  # the accessory refuses: error TLV with HTTP 200 or inside a 4xx reply
 
 
 def _edit(fault, seed):
@@ -47,6 +48,8 @@ def _case_e2e(p):
             rig.acc.handler = std_handler()
             if fault == "other-identity":
                 rig.acc.verify_fault = "wrong-id"
+            elif fault in IP_ONLY_FAULTS:
+                rig.acc.verify_fault = fault
             elif fault != "honest":
                 rig.acc.verify_fault = _edit(fault, seed)
             try:
@@ -139,4 +142,5 @@ CASES = {"e2e": case_e2e}
 
 
 def plan():
-    return [("e2e", [{"rec": 0, "eph": 0, "style": tr, "transport": tr, "fault": f}]) for tr in ("ip", "coap", "ble") for f in FAULTS]
+    return [("e2e", [{"rec": 0, "eph": 0, "style": tr, "transport": tr, "fault": f}]) for tr in ("ip", "coap", "ble") for f in FAULTS] + \
+        [("e2e", [{"rec": 0, "eph": 0, "style": "ip", "transport": "ip", "fault": f}]) for f in IP_ONLY_FAULTS]
